@@ -125,9 +125,11 @@ class Socket(base_socket.BaseSocket):
             if not abort:
                 self.send(packet.Packet(packet.CLOSE))
             self.closed = True
-            self.queue.put(None)
             if wait:
                 self.queue.join()
+            # the sentinel that stops the websocket writer is queued after
+            # the join above, because on polling nothing ever consumes it
+            self.queue.put(None)
 
     def schedule_ping(self):
         self.server.start_background_task(self._send_ping)
